@@ -19,12 +19,12 @@ RULE = ('case = file-based generated pipeline (JSON/YAML, uses with and without 
         'directory-type or empty result and >=1 task left uncomputed; distinct = hash(files, root, computed subset)')
 REQUIRED = ['migrations', 'migrated_results_loaded', 'uncomputed_tasks_checked', 'dry_runs_checked', 'second_migrations_checked', 'source_trees_checked',
             'multi_config_roots', 'explicit_part_roots', 'explicitly_named_configs', 'directory_results_migrated', 'empty_results_migrated',
-            'linked_directory_results_migrated', 'figure_results_migrated', 'config_object_used_for_a_chain_before_migration']
+            'linked_directory_results_migrated', 'figure_results_migrated', 'interrupted_resumable_computations_in_source', 'config_object_used_for_a_chain_before_migration']
 ASSUMPTIONS = ['the migration function takes no root namespace: roots without namespace only',
                'one config file is not mounted twice (name mode addresses results by config name, two mounts would share a location by design)',
                'newly created EMPTY directories in the source are ignored (inspecting a task creates its directory)']
 BUDGET = {'quick': 60, 'thorough': 1200}
-FEAT = {'same_file_twice': False, 'dup_module_file': False, 'set_objects': False, 'data_kinds': S.DATA_KINDS + ['dir_link', 'dir_link', 'figure', 'figure']}
+FEAT = {'same_file_twice': False, 'dup_module_file': False, 'set_objects': False, 'data_kinds': S.DATA_KINDS + ['dir_link', 'dir_link', 'figure', 'figure', 'continues', 'continues']}
 DIR_KINDS = ('dir', 'continues', 'listnp', 'empty_dir', 'empty_listnp', 'dir_link')
 
 
@@ -57,6 +57,11 @@ def run_one(rng, res: CaseResult):
         seen.add((file, part))
     names = list(ref.tasks)
     subset = [n for n in names if rng.random() < 0.6]
+    conts = [n for n in names if ref.tasks[n]['spec']['data_kind'] == 'continues']
+    if conts and rng.random() < 0.6:
+        # keep one resumable task (and what depends on it) uncomputed: it will be started and interrupted instead
+        keep_out = rng.choice(conts)
+        subset = [n for n in subset if n != keep_out and keep_out not in ref.ancestors(n)]
     # computing a task computes its upstream too
     computed = set()
     for n in subset:
@@ -66,15 +71,32 @@ def run_one(rng, res: CaseResult):
     with Lab(spec) as lab:
         s1 = [{'op': 'build', 'chain': 'old', 'root': root, 'parameter_mode': False, 'data_dir_name': 'src_data'}]
         s1 += [{'op': 'value', 'chain': 'old', 'task': n, 'data_dir_name': 'src_data'} for n in subset]
-        s1 += [{'op': 'inspect', 'chain': 'old', 'what': 'has_data', 'data_dir_name': 'src_data'}]
+        # a resumable (ContinuesData) task whose computation was started but not finished before the migration: its work directory with
+        # the partial output is part of the source tree (and must be left alone)
+        unfinished = [n for n in names if n not in computed and ref.tasks[n]['spec']['data_kind'] == 'continues']
+        interrupted = None
+        if unfinished and rng.random() < 0.7:
+            interrupted = rng.choice(unfinished)
+            s1 += [{'op': 'arm_fault', 'chain': 'old', 'task': interrupted, 'kind': 'raise_mid_dir'},
+                   {'op': 'value', 'chain': 'old', 'task': interrupted, 'data_dir_name': 'src_data'}, {'op': 'disarm', 'chain': 'old'}]
+            computed |= ref.ancestors(interrupted)
+            res.count('interrupted_resumable_computations_in_source')
+        # (has_data is asked BEFORE the interruption: the last thing that happens in the source is the interrupted run)
+        hd_at = len(s1) - (3 if interrupted else 0)
+        s1.insert(hd_at, {'op': 'inspect', 'chain': 'old', 'what': 'has_data', 'data_dir_name': 'src_data'})
+        if interrupted:
+            # upstream tasks of the interrupted one are computed by its request: ask for them first so that has_data sees them
+            for a_ in sorted(ref.ancestors(interrupted)):
+                s1.insert(hd_at, {'op': 'value', 'chain': 'old', 'task': a_, 'data_dir_name': 'src_data'})
+            hd_at += len(ref.ancestors(interrupted))
         r1 = lab.run(s1, data_dir=lab.root / 'src_data')
         if session_problem(r1):
             res.inconclusive.append(session_problem(r1))
             return
-        if not all(o['ok'] for o in r1['steps']):
+        if not all(o['ok'] or (interrupted and o_i > hd_at) for o_i, o in enumerate(r1['steps'])):
             res.count('name_mode_trouble_not_judged')
             return
-        old_has = r1['steps'][-1]['has_data']
+        old_has = r1['steps'][hd_at]['has_data']
         src_before = lab.tree_hash('src_data')
         mig = {'op': 'migrate', 'root': root, 'target_name': 'target', 'data_dir_name': 'src_data'}
         if rng.random() < 0.4:
